@@ -1429,6 +1429,14 @@ func p4(w *World, r *Report, reach *Reach, scope []*ssa.Function) {
 						continue
 					}
 				}
+				// the error is tested through a variable that several steps share
+				// (`v, err := get(); if err == nil { err = step(v) }; …; if err != nil { return }`):
+				// decided on the paths — no feasible path reaches the dereference with the
+				// getter's error non-nil
+				if errV != nil && (nilWithErr || w.nilOnlyWithErr(callees)) && w.derefOnlyWhereErrNil(fn, d, errV) {
+					r.OK("P-4", key, "every feasible path to this dereference passes a test that found the getter's error nil (the callee returns nil only together with an error)", site(w, d))
+					continue
+				}
 				// the comma-ok convention: the callee hands back nil only together with
 				// `false`, and the dereference sits where that flag is known to be true
 				if res.Len() > 1 && isBoolType(res.At(res.Len()-1).Type()) {
@@ -1555,6 +1563,27 @@ func (w *World) nilOnlyWithErr(callees []*ssa.Function) bool {
 		}
 	}
 	return true
+}
+
+// derefOnlyWhereErrNil: on every path of fn (as the enumerator walks them, with
+// the nil tests a path passed remembered) that reaches instruction d, the error
+// value errV was found nil.
+func (w *World) derefOnlyWhereErrNil(fn *ssa.Function, d ssa.Instruction, errV ssa.Value) bool {
+	seen, bad := 0, false
+	ev := func(in ssa.Instruction) string {
+		if in != d {
+			return ""
+		}
+		seen++
+		if w.cur == nil || w.cur.st == nil || w.cur.st.nilFact[stripConv(errV)] != -1 {
+			bad = true
+		}
+		return "D"
+	}
+	w.psEvents = true
+	_, complete := w.enumPaths(fn, func(ssa.Value) (bool, bool) { return false, false }, ev, 4000)
+	w.psEvents = false
+	return complete && seen > 0 && !bad
 }
 
 // nilOnlyWithFalse: every return of the callees whose first result may be nil has
